@@ -51,6 +51,7 @@ def merge_cases(draw, max_chroms=3, max_bins=5):
         inputs.append([[c[0], c[1], v[0], v[1]] for c, v in zip(sel, vals)])
     cols = draw(st.sampled_from([None, None, ["count"], ["count", "x"], ["x"]]))
     agg_count = draw(st.sampled_from(["sum", "sum", "min", "max", "count", "range"]))
+    agg_x = draw(st.sampled_from(["sum", "sum", "max"]))
     # a binary tree over the leaves, as a nested list of leaf indices
     leaves = list(range(k))
     perm = draw(st.permutations(leaves))
@@ -59,7 +60,7 @@ def merge_cases(draw, max_chroms=3, max_bins=5):
         a = draw(st.integers(0, len(tree) - 2))
         tree[a:a + 2] = [[tree[a], tree[a + 1]]]
     return {"part": "merge", "bt": bt, "symmetric": symmetric, "inputs": inputs, "cols": cols,
-            "agg_count": agg_count, "mergebuf": draw(st.sampled_from([1, 2, 3, 7, 50, 10**6])),
+            "agg_count": agg_count, "agg_x": agg_x, "mergebuf": draw(st.sampled_from([1, 2, 3, 7, 50, 10**6])),
             "order": list(draw(st.permutations(leaves))), "tree": tree,
             "count_dtypes": count_dtypes, "via": draw(st.sampled_from(["api", "api", "cli"])),
             "support": support}
@@ -89,7 +90,7 @@ def check_merge(case, ctx: Ctx):
 
     bt, symmetric = case["bt"], case["symmetric"]
     cols = case["cols"] or ["count"]
-    aggs = {"count": case["agg_count"], "x": "sum"}
+    aggs = {"count": case["agg_count"], "x": case.get("agg_x", "sum")}
     work = ctx.tmpdir()
     try:
         uris = _make_inputs(ctx, case, work)
@@ -100,12 +101,14 @@ def check_merge(case, ctx: Ctx):
         if "count" in cols and case["agg_count"] != "sum":
             # 'count' = number of inputs holding the pixel; 'range' = a user callable (max - min): neither is idempotent
             kw["agg"] = {"count": (lambda s_: s_.max() - s_.min()) if case["agg_count"] == "range" else case["agg_count"]}
+        if "x" in cols and aggs["x"] != "sum":
+            kw.setdefault("agg", {})["x"] = aggs["x"]
         via = case.get("via", "api") if case["agg_count"] != "range" else "api"
         if via == "cli":
             from ..cliutil import run_cli
 
             args = ["merge", out, *[uris[t] for t in case["order"]], "-c", case["mergebuf"]]
-            if case["cols"] is not None or case["agg_count"] != "sum":
+            if case["cols"] is not None or any(aggs[c] != "sum" for c in cols):
                 for c in cols:
                     a = aggs[c]
                     args += ["--field", c + (f":agg={a}" if a != "sum" else "")]
